@@ -67,7 +67,15 @@ fn main() {
                 std::process::exit(2)
             });
             let (prop, suite, case) = props::prepare_case(&v);
-            match props::replay_case(&prop, &suite, &case) {
+            // run the case on a thread of the default size, like the worker threads of a full run
+            let (p2, s2, c2) = (prop.clone(), suite.clone(), case.clone());
+            let verdict = std::thread::spawn(move || {
+                install_panic_hook();
+                props::replay_case(&p2, &s2, &c2)
+            })
+            .join()
+            .unwrap_or(None);
+            match verdict {
                 Some(Verdict::Fail { msg, .. }) => {
                     println!("{}", msg);
                     println!("VIOLATION property={} replay={}", prop, args[2]);
